@@ -146,7 +146,7 @@ impl Property for P {
         ]
     }
     fn workloads(&self, tier: Tier) -> Vec<Workload> {
-        vec![Workload::new("chains", tier.pick(20_000, 500_000), false, "random redirect chains")]
+        vec![Workload::new("chains", tier.pick(20_000, 8_000_000), false, "random redirect chains")]
     }
     fn run_case(&self, wl: &str, idx: u64, seed: u64, rec: &mut Rec) {
         let mut rng = Rng::derive(seed, wl, idx);
